@@ -66,9 +66,13 @@ impl<T: Qcow2IoOps> Qcow2Dev<T> {
                         self.flush_mapping(&l1_table).await?;
                         new_l1_table.set_offset(Some(res.0));
                         self.flush_top_table(&new_l1_table).await?;
+                        // the new table before the header which points to it
+                        self.call_fsync(0, usize::MAX, 0).await?;
 
                         self.flush_header_for_l1_table(res.0, new_l1_table.entries())
                             .await?;
+                        // ... and the header before the old table is released
+                        self.call_fsync(0, usize::MAX, 0).await?;
                     }
                 };
 
